@@ -1,0 +1,5 @@
+//go:build !verif
+
+package ctlog
+
+func verifPoint(l *Log, name string) {}
